@@ -62,12 +62,12 @@ pub fn gen_node(sig: &LangSig, alphabet: usize, src: &mut Src) -> Tm {
 pub fn build_node<L: Build>(t: &Tm, nm: &Naming) -> Result<L, String> {
     let mut slots = Vec::new();
     let mut binders: Vec<Vec<Slot>> = Vec::new();
-    let mut pay: Option<String> = None;
+    let mut pays: Vec<&str> = Vec::new();
     let mut kids: Vec<AppliedId> = Vec::new();
     for a in &t.args {
         match a {
             Arg::S(n) => slots.push(crate::egx::slot_of(*n, nm)),
-            Arg::P(p) => pay = Some(p.clone()),
+            Arg::P(p) => pays.push(p.as_str()),
             Arg::K(bs, k) => {
                 binders.push(bs.iter().map(|b| crate::egx::slot_of(*b, nm)).collect());
                 let id: usize = k.op[1..].parse().map_err(|_| "bad child leaf")?;
@@ -81,7 +81,7 @@ pub fn build_node<L: Build>(t: &Tm, nm: &Naming) -> Result<L, String> {
             }
         }
     }
-    let mut node = L::build(&t.op, &slots, &binders, pay.as_deref()).ok_or_else(|| format!("cannot build {}", t.op))?;
+    let mut node = L::build(&t.op, &slots, &binders, &pays).ok_or_else(|| format!("cannot build {}", t.op))?;
     let mut refs = node.applied_id_occurrences_mut();
     if refs.len() != kids.len() {
         return Err("child count".into());
@@ -379,9 +379,49 @@ fn decode(ch: &[u16], a: u16, b: u16) -> NodeCase {
         }
         _ => gen_node(&sig, alphabet, &mut src),
     };
-    let namings = [Naming::Alpha, Naming::Numeric, Naming::FreshLike, Naming::NumericRev];
+    let namings = [Naming::Alpha, Naming::Numeric, Naming::FreshLike, Naming::NumericRev, first_occurrence_numeric(&node)];
     let naming = namings[(b as usize * namings.len()) >> 16].clone();
     NodeCase { lang, node, other, ren, naming }
+}
+
+/// spelling under which the node's names, in order of first occurrence (binders and bound uses included), are $0, $1, $2, ..:
+/// the node then looks exactly like a canonical shape although scopes may reuse a number
+pub fn first_occurrence_numeric(node: &Tm) -> Naming {
+    let mut order: Vec<Name> = Vec::new();
+    let mut see = |n: Name, order: &mut Vec<Name>| {
+        if !order.contains(&n) {
+            order.push(n);
+        }
+    };
+    for a in &node.args {
+        match a {
+            Arg::S(n) => see(*n, &mut order),
+            Arg::P(_) => {}
+            Arg::K(bs, k) => {
+                for b in bs {
+                    see(*b, &mut order);
+                }
+                for x in &k.args {
+                    if let Arg::S(n) = x {
+                        see(*n, &mut order);
+                    }
+                }
+            }
+        }
+    }
+    let mut table: Vec<String> = vec![String::new(); 256];
+    let mut next = 0usize;
+    for n in &order {
+        table[*n as usize] = next.to_string();
+        next += 1;
+    }
+    for e in table.iter_mut() {
+        if e.is_empty() {
+            *e = next.to_string();
+            next += 1;
+        }
+    }
+    Naming::Table(table)
 }
 
 fn exhaustive_cases() -> Vec<NodeCase> {
@@ -458,7 +498,9 @@ fn exhaustive_cases() -> Vec<NodeCase> {
                 let node = Tm { op: o.name.to_string(), args: v.clone() };
                 // compare each node with its successor in the enumeration (decides shape equality on neighbouring assignments)
                 let other = Tm { op: o.name.to_string(), args: variants[(i + 1) % variants.len()].clone() };
-                out.push(NodeCase { lang, node, other, ren: vec![1, 2, 0, 3], naming: Naming::Alpha });
+                let fo = first_occurrence_numeric(&node);
+                out.push(NodeCase { lang, node: node.clone(), other: other.clone(), ren: vec![1, 2, 0, 3], naming: Naming::Alpha });
+                out.push(NodeCase { lang, node, other, ren: vec![1, 2, 0, 3], naming: fo });
             }
         }
     }
@@ -472,7 +514,7 @@ pub fn property(tier: Tier) -> Property {
             source: Source::Enumerate(Arc::new(|| Box::new(exhaustive_cases().into_iter()))),
             run,
             panic_is_violation: true,
-            render: |c: &NodeCase| format!("[{:?}] {} ~ {}", c.lang, c.node.txt(), c.other.txt()),
+            render: |c: &NodeCase| format!("[{:?}{}] {} ~ {}", c.lang, if matches!(c.naming, Naming::Table(_)) { ", names numbered $0,$1,.. by first occurrence" } else { "" }, c.node.txt(), c.other.txt()),
             rule: "exhaustive: every operator of Core, Sdql, ArrayLang and Pay (bool / i64 / char payloads, a payload next to a slot and a bound child) with every assignment of 3 names to its slot fields and binders and children with 0-2 distinct arguments (repeated and shadowing names included), each compared with the next assignment; non-trivial = binder next to a free slot, or a repeated name",
             case_timeout_s: 60,
             exhaustive: true,
@@ -485,7 +527,7 @@ pub fn property(tier: Tier) -> Property {
             ),
             run,
             panic_is_violation: true,
-            render: |c: &NodeCase| format!("[{:?},{:?}] {} ~ {} ren={:?}", c.lang, c.naming, c.node.txt(), c.other.txt(), c.ren),
+            render: |c: &NodeCase| format!("[{:?},{}] {} ~ {} ren={:?}", c.lang, match &c.naming { Naming::Table(_) => "names numbered $0,$1,.. by first occurrence".to_string(), n => format!("{:?}", n) }, c.node.txt(), c.other.txt(), c.ren),
             rule: "random model e-nodes of 6 derived languages (plain slots, Bind, nested Bind, Bind before/after a free child, payloads), 4-name alphabet with repeated and shadowing names, child invocations with up to 3 arguments, 4 slot spellings; laws checked on the node, on a renamed + alpha-renamed copy and on a second node (renamed / perturbed / independent); non-trivial = binder next to a free slot, or a repeated name; distinct by rendered case",
             case_timeout_s: 60,
             exhaustive: false,
